@@ -47,3 +47,16 @@ Theorem C19_rate_local : forall L s s' now ip,
   rl_get ip s = rl_get ip s' -> snd (rl_step L s now ip) = snd (rl_step L s' now ip).
 Proof. exact rl_decision_local. Qed.
 Print Assumptions C19_rate_local.
+
+(* SetDefaults on a whole configuration, with the rule table generated from the current source: a field that is
+   explicitly set keeps its value whatever the other fields hold; fields without a rule and the set of fields are untouched;
+   defaulting twice changes nothing more *)
+Theorem C19_defaults_keep_set : forall store cfg f v r,
+  In (f, v) cfg -> lookup f gen_defaults = Some r -> is_set r v = true -> In (f, v) (set_defaults gen_defaults store cfg).
+Proof. exact (set_defaults_keeps_set gen_defaults). Qed.
+Theorem C19_defaults_fields : forall store cfg, map fst (set_defaults gen_defaults store cfg) = map fst cfg.
+Proof. exact (set_defaults_fields gen_defaults). Qed.
+Theorem C19_defaults_idem : forall store cfg,
+  set_defaults gen_defaults store (set_defaults gen_defaults store cfg) = set_defaults gen_defaults store cfg.
+Proof. exact (set_defaults_idem gen_defaults). Qed.
+Print Assumptions C19_defaults_idem.
